@@ -8,6 +8,7 @@
    HCHK id PTS PTS                hull2_check on a library output
    DECO id RINGS                  model DecomposeByContainment
    DCHK id RINGS nc RINGS ... PTS decomp_check (whole, components, samples)
+   RINS id RINGS                  matrix of the ported RingInside (bbox_inside && all vertices in the closed ring)
    OCHK id grow round Tin Tout R RINGS RINGS PTS   offset_check, first failing sample
    MONO id Rs Ts RINGS RINGS PTS
    REG  id Ts RINGS *)
@@ -127,6 +128,12 @@ let () =
            Buffer.add_string b (Printf.sprintf "DECO %s %d" id (List.length comps));
            List.iter (fun c -> Buffer.add_string b (Printf.sprintf " %d" (List.length c));
                        List.iter (fun i -> Buffer.add_string b (Printf.sprintf " %d" (int_of_z i))) c) comps
+         | "RINS" ->
+           let rings = Array.of_list (next_rings ()) in
+           let n = Array.length rings in
+           Buffer.add_string b (Printf.sprintf "RINS %s %d" id n);
+           for i = 0 to n - 1 do for j = 0 to n - 1 do
+             Buffer.add_string b (if i <> j && ring_inside rings.(i) rings.(j) then " 1" else " 0") done done
          | "DCHK" ->
            let whole = next_rings () in
            let nc = next_int () in
